@@ -29,6 +29,7 @@ type Config struct {
 	GOARCH   string
 	Tags     string
 	Tests    bool
+	NoNorm   bool // analyse the source as written (no inlining of helpers outside the inventory)
 }
 
 func (c Config) String() string {
@@ -48,6 +49,7 @@ type Prog struct {
 	SSA     *ssa.Program
 	SSAPkgs map[string]*ssa.Package
 	ModPath string // module path of the root module (e.g. storj.io/drpc)
+	Norm    *NormReport
 
 	cgOnce sync.Once
 	cg     *callgraph.Graph
@@ -102,6 +104,14 @@ func Load(cfg Config) (*Prog, error) {
 	if len(pats) == 0 {
 		pats = []string{"./..."}
 	}
+	var norm *NormReport
+	if !cfg.NoNorm && os.Getenv("SA_NONORM") == "" {
+		var ov map[string][]byte
+		ov, norm = BuildOverlay(cfg)
+		if ov != nil {
+			pc.Overlay = ov
+		}
+	}
 	roots, err := packages.Load(pc, pats...)
 	if err != nil {
 		return nil, fmt.Errorf("load %s: %w", cfg, err)
@@ -110,11 +120,27 @@ func Load(cfg Config) (*Prog, error) {
 		return nil, fmt.Errorf("load %s: zero packages", cfg)
 	}
 	var errsFound []string
-	packages.Visit(roots, nil, func(p *packages.Package) {
-		for _, e := range p.Errors {
-			errsFound = append(errsFound, e.Error())
+	collect := func() {
+		errsFound = nil
+		packages.Visit(roots, nil, func(p *packages.Package) {
+			for _, e := range p.Errors {
+				errsFound = append(errsFound, e.Error())
+			}
+		})
+	}
+	collect()
+	if len(errsFound) > 0 && pc.Overlay != nil {
+		// the normalised source is not loadable: analyse the tree as written
+		norm.Failed = "normalised source does not load (" + errsFound[0] + "); analysed as written"
+		pc.Overlay = nil
+		fset = token.NewFileSet()
+		pc.Fset = fset
+		roots, err = packages.Load(pc, pats...)
+		if err != nil {
+			return nil, fmt.Errorf("load %s: %w", cfg, err)
 		}
-	})
+		collect()
+	}
 	if len(errsFound) > 0 {
 		sort.Strings(errsFound)
 		if len(errsFound) > 8 {
@@ -122,7 +148,7 @@ func Load(cfg Config) (*Prog, error) {
 		}
 		return nil, fmt.Errorf("load %s: package errors: %s", cfg, strings.Join(errsFound, "; "))
 	}
-	p := &Prog{Cfg: cfg, Fset: fset, ByPath: map[string]*packages.Package{}, SSAPkgs: map[string]*ssa.Package{}}
+	p := &Prog{Cfg: cfg, Fset: fset, Norm: norm, ByPath: map[string]*packages.Package{}, SSAPkgs: map[string]*ssa.Package{}}
 	packages.Visit(roots, nil, func(pk *packages.Package) {
 		p.Pkgs = append(p.Pkgs, pk)
 		p.ByPath[pk.PkgPath] = pk
